@@ -167,8 +167,13 @@ func ParseUid(s string) Uid {
 // ParseUid32 parses base32-encoded string into Uid.
 func ParseUid32(s string) Uid {
 	var uid Uid
-	if data, err := base32.StdEncoding.WithPadding(base32.NoPadding).DecodeString(s); err == nil {
+	// String32 produces lower case; the standard alphabet is upper case.
+	if data, err := base32.StdEncoding.WithPadding(base32.NoPadding).DecodeString(strings.ToUpper(s)); err == nil && len(data) == 8 {
 		uid.UnmarshalBinary(data)
+		// Accept the canonical form only: reject stray bits in the last character.
+		if uid.String32() != strings.ToLower(s) {
+			return ZeroUid
+		}
 	}
 	return uid
 }
